@@ -10,7 +10,8 @@ RULE = ("(a) random runs over maxfun in {1,2,3,n,n+1,n+2,2n+1,...}, nsamples cal
         "random incl. 0/negative), noise, soft/hard restarts, regression, growing; (b) budget-index enumeration: for each reference "
         "run, maxfun = 1..nf_ref so the budget expires at every call in turn. Oracle: one linear pass over recorder + log tap + "
         "nsamples-callback history (exact integers, bit-equality of x within a point). A run is non-trivial when the budget test "
-        "tripped (nf == maxfun) or a point was sampled more than once; distinct by (configuration hash, maxfun)")
+        "tripped (nf == maxfun) or a point was sampled more than once; distinct by (configuration hash, maxfun)"
+        ' Second session: calling forms (views, residual functions returning lists / one re-used buffer, overwriting or keeping their argument) on a fifth of the runs; seldom-used parameter keys.')
 ASSUMPTIONS = ["evaluation / point numbers are those dfols itself reports in the documented log line 'Function eval i at point j'",
                "the recorder and the nsamples recorder observe every call made by solve"]
 NREF = {"quick": 120, "thorough": 1500}
